@@ -444,6 +444,7 @@ func Ladder(t *rapid.T, nx int) (int, [][]int, string) {
 	helpersFirst := rapid.Bool().Draw(t, "helpersFirst")
 	desc := rapid.Bool().Draw(t, "xDescending")
 	next := 1 + rapid.IntRange(0, 2).Draw(t, "unusedFirst") // a few variables that occur in no clause come first
+	firstUnused := next > 1                                 // variable 1 occurs in no clause of the ladder
 	newVar := func() int { v := next; next++; return v }
 	var y, w, q1, q2 int
 	zs := make([]int, nx+1)
@@ -498,7 +499,7 @@ func Ladder(t *rapid.T, nx int) (int, [][]int, string) {
 			cls = append(cls, []int{-xs[nx], w}, []int{-xs[nx], -w})
 		}
 	}
-	if xs[1] != 1 && y != 1 && rapid.Bool().Draw(t, "forbidFirst") {
+	if firstUnused && rapid.Bool().Draw(t, "forbidFirst") {
 		// variable 1 occurs nowhere else: forbid it through a helper (not a unit clause: nothing is decided while parsing).
 		// Whatever takes a stale "variable 1" for a literal of a learned clause then meets a falsified literal.
 		g := newVar()
